@@ -4,7 +4,7 @@ CONSTANTS
   MaxCells = 3
   Aligns = {"none", "left", "right", "center"}
   Edges = {"both", "none", "lead", "trail"}
-  CellKinds = {"plain", "escpipe", "codepipe", "emptycells", "lonepipe", "doubletrail", "spaces", "inline"}
+  CellKinds = {"plain", "escpipe", "codepipe", "emptycells", "lonepipe", "doubletrail", "spaces", "inline", "codepipe2", "escpipe2"}
   Containers = {"top", "quote", "list"}
   Emit = TRUE
   Mode = "spec"
